@@ -256,6 +256,12 @@ def by_name_cases(tier, rng):
     cap = 9000 if tier == "quick" else 150000
     if len(exps) > cap:
         exps = rng.sample(exps, cap)
+    # boundary states, for EVERY command (not sampled): empty buffer, one character, cursor on the first / last character and
+    # behind it, only blanks, an empty last line
+    bsbm = {mode: [(b, c, []) for (b, c) in [("", 0), ("a", 0), ("a", 1), ("ab cd", 5), ("ab cd", 4), ("a b", 0), (" ", 1), ("  ", 0), ("a\n", 2), ("(", 0), ("中", 1)]]
+            for mode in ("emacs", "vi-insert", "vi-command")}
+    _, _, bexps = p_c06.experiments_cases("c01b", plain, bsbm, [None, 2] if tier == "quick" else [None, 2, -1, 0, 9], rng)
+    exps += bexps
     out = []
     for k, irc in enumerate(["", random_inputrc(rng, "emacs", p=0.3).replace("set editing-mode vi\n", ""), "set history-autosuggest on\nset autopairs on\n"]):
         part = exps[k::3]
